@@ -1,10 +1,33 @@
 """what MANIFEST.json claims, per property"""
-SOURCE_COMMITS = ["586d1d8", "84b55ce", "952a903", "a66a89b", "c13e5b8", "004b113", "2d82274", "7e29eec", "332b038", "b0be7a7", "f814fba", "97e13b8", "cc98207", "b0cacf5", "f3ee904"]
+SOURCE_COMMITS = ["586d1d8", "84b55ce", "952a903", "a66a89b", "c13e5b8", "004b113", "2d82274", "7e29eec", "332b038", "b0be7a7", "f814fba", "97e13b8", "cc98207", "b0cacf5", "f3ee904", "ecc3d1a", "dd10db0", "ecf9744"]
 NOT_APPLICABLE = {}
 PROOF_NOTE = ("Trusted: Lean 4.33 kernel and the axioms printed per theorem (propext, Quot.sound, Classical.choice at most); the statements in lean/Proofs/Props; "
               "the hand-written model is validated against the C by differential execution (bounded by generator quality), not derived from it; "
               "translator and harness themselves.")
 CHECKS = {
+ "C03": dict(category="proof",
+   text=("Theorem: the ENCINT round trip on the model of read_encint (every legal 1-9 byte coding of every n < 2^63, anywhere in a chunk, decodes to n, consumes exactly its bytes, does not fail). "
+         "The CHM model (headers, PMGL/PMGI directory, system files, reset table / SpanInfo, section 0 and LZX section 1 extraction with the decoder cache) and the LZX model are executable Lean and agree with the "
+         "implementation on generated helpfiles (chunk sizes, densities, index depth, header versions, both ControlData versions, reset-table variants, UTF-8 names) and on the fixtures; "
+         "the implementation is judged against the plan (listing fields, bytes; every member extracted forward and in reverse so decoding restarts at reset points). Header, directory and LZX round trips are not theorems yet."),
+   note=PROOF_NOTE, technique="Lean 4 theorem (ENCINT) + executable model + plan oracle and differential runs"),
+ "C15": dict(category="proof",
+   text=("Theorems on the model of chmd.c's name comparison: a name compares equal to itself and ASCII letter case is ignored. The binary search over quick-reference entries, the index descent and the chunk cache are "
+         "modelled and agree with the implementation on every lookup of generated directories; the implementation is judged against the listing: every listed name and its case variants are found with the listing's "
+         "section/offset/length, absent neighbours give OK with a null section, in shuffled order on open() and fast_open() handles."),
+   note=PROOF_NOTE + " towlower is the C locale's in harness and model.", technique="Lean 4 theorems on compare + exhaustive lookup oracle with model agreement"),
+ "C16": dict(category="proof",
+   text=("Theorems on a byte-exact model of create_output_name (validated on 5,000+/166,000+ names per run against the real function): for every name, flag combination and -d prefix the archive-determined part of the output "
+         "has no leading slash or backslash, contains no '../' or '..\\' anywhere, no NUL, and no '..' component except possibly the last; the allocation is always sufficient; also for any towlower. "
+         "The file-system clauses (nothing outside -d is created, modified or removed; no write through archive-path symlinks without -k) are checked on the real binary in jailed throw-away trees with hostile names, "
+         "live and dangling symlinks and all option sets. Found and repaired: ecc3d1a, dd10db0, ecf9744."),
+   note=PROOF_NOTE + " libc (towlower, iconv, stat/lstat/unlink/mkdir/fopen) and the kernel's path resolution are outside the model; races with other processes are not covered.",
+   technique="Lean 4 theorems on the name sanitiser (induction with an output invariant) + differential runs + file-system snapshot oracle on the real binary"),
+ "C17": dict(category="proof",
+   text=("Theorems on a model of process_cabinet's member loop, for any fnmatch: all four modes act on the same members in the same order, each member exactly once without -F, a sub-sequence with -F, -p output is the concatenation of the selected members, -d does not change the selection. "
+         "Contents, modes, mtimes, MD5s, listing format and exit status are checked on the real binary against an executable specification computed from the plan (generated cabinets, fixtures, split sets from every part, planted failures)."),
+   note=PROOF_NOTE + " fnmatch, mktime, umask and locale are libc's; the expected values come from a Python specification of the property.",
+   technique="Lean 4 theorems on the member-selection model + specification oracle on the real binary"),
  "C04": dict(category="proof",
    text=("Totality of every model function is checked by Lean (structural / well-founded recursion; fuel with an explicit `hang` outcome elsewhere). Theorems: the restart loop of cabd_find always advances "
          "and the fuel of the CAB stream feeder (two iterations per remaining block) always suffices, for every cabinet. The decoders' fuel is not yet proved sufficient. "
